@@ -25,6 +25,7 @@ dbg <i> <id>  |  dbgreg <i>                 -> <i> PeerHandle{peer_id:PeerId(N)}
 ctx <i> new <id> <method> | ctx <i> detached <method>  -> <i> <method> <id/tag|-> <is_cancelled T|F> <cancelled() pending|ready> | none
 bcastfail <i> <json|beve> <path>            -> <i> err sent -             (encoder error: nothing is sent)
 loop <i> <setup> <cycle> <reader>.. :: <c=ans|ans;..>..  -> <i> ok <n> | <i> INADMISSIBLE   (looped race)
+stall <i> <ms>.. / stalljoin <i> / ws <i> <k>  -> <i> started / <i> ok / <i> ok   (checked by the harness's direct oracles)
 poison <i>                                  -> <i> done                   (a caller panics inside get_by; state unchanged)
 enum <i> <depth> <fold> <prefix|->          -> one line per sequence `<i> <path> <ret> <digest> [h=<hash>]`
 conc <i> <setup|-> <t1> <t2> .. :: <outcome> ..     -> <i> ok <n> | <i> NONLIN <outcome>
@@ -302,6 +303,9 @@ def stepCore (st : St) (ws : List String) : St × String :=
       -- re-entrant sinks: every handle of the snapshot was sent to, so every such sink fired
       ((snapshot st.s).foldl fire st, out)
     | _, _ => (st, i ++ " bad-op")
+  | "stall" :: i :: _ => (st, i ++ " started")      -- a broadcast to stalling sinks runs in the background (harness only)
+  | ["stalljoin", i] => (st, i ++ " ok")            -- … and delivered exactly one notification per present peer
+  | ["ws", i, _] => (st, i ++ " ok")                -- the built-in WebSocket server path (harness only)
   | ["poison", i] =>
     -- a lookup that panics while the registry lock is held: `lock()` recovers from the poisoning, nothing changes
     (st, i ++ " done")
